@@ -226,6 +226,10 @@ def r2_rejections(ctx, f, rep):
     # stale timers: C13-R2 (re-run under this property's id)
     from .c09 import _Rename
     c13.r2_stale_inert(ctx, f, _Rename(rep, 'C13-R2', 'C17-R2'))
+    # ... and "stale" must mean "of an earlier epoch": every leave of the Connected state really changes the token
+    # (a saturating or conditional bump leaves timers of the previous epoch effective) - C13-R1 re-run here
+    from .lib.effects import Effects
+    c13.r1_bumps(ctx, f, _Rename(rep, 'C13-R1', 'C17-R2'), Effects(f))
 
 
 def r3_accept_payload(ctx, f, rep):
@@ -272,7 +276,7 @@ def check(ctx):
         'Static decision of: absence of ambient nondeterminism (deny-list over every resolved callee, pointer-to-int casts, '
         'provenance of the generator passed to rand::) (R1); validation-before-effect on every rejection path of '
         'handle_data and of the failing API calls, including that the RNG, the runtime and every non-scratch field are '
-        'untouched, and the scratch discipline of updates_buf (R2, with the stale-timer rule C13-R2 re-run); the '
+        'untouched, and the scratch discipline of updates_buf (R2, with the stale-timer rules C13-R1/R2 re-run); the '
         'destination check table (R3). The wire configuration (unstable-notifications) is analysed in the quick tier so '
         'that the extra DataReceived notification is shown to sit after all checks.')
     rep.not_decided = []
